@@ -5,6 +5,7 @@ Programs on stdin are separated by a line `;;;===`.
 -/
 import SteelVerif.Base.Eval
 import SteelVerif.C01.Parse
+import SteelVerif.C01.BCDriver
 namespace SteelVerif.C01
 open SteelVerif.Base
 
@@ -46,6 +47,9 @@ where
   initVM' (e : IR) : VM := { cur := { code := compile e ++ [.ret], ip := 0, stack := [] }, frames := [] }
 
 def mainC01 (args : List String) : IO Unit := do
+  if args == ["bc"] then
+    SteelVerif.C01BC.bcMain
+    return ()
   if args == ["frag"] then
     fragLoop (← IO.getStdin) []
     return ()
